@@ -358,8 +358,11 @@ def setParams (pos : Pos) (params : List String) : CM Unit := do
     if t.numParams > 0 then cerr pos "parameters already defined"
     else if t.disableParams then cerr pos "parameters disabled"
     else do
-      modHead fun t => { t with numParams := params.length }
+      -- Go stores `st.numParams = len(params)` before the loop and sets it back to the number of
+      -- parameters defined when the loop fails; nothing in the loop reads it, so the store is
+      -- made here, after the loop (same final state on every path)
       setParamsLoop pos params 0
+      modHead fun t => { t with numParams := params.length }
 
 def rootDisabled : List Table → List String
   | [] => []
